@@ -7,7 +7,7 @@ from ..runner import Leg, Res, libcall
 
 PROPERTY = 'C15'
 NEED_C = True
-RULE = ('(a) 2..8 series (lattice values, duplicates -> ties) with dtw.distance_matrix / distance_matrix_fast as dists_fun; '
+RULE = ('(a) 2..8 series, one case in 8 with 9..18 (lattice values, duplicates -> ties) with dtw.distance_matrix / distance_matrix_fast as dists_fun; '
         '(b) a synthetic dists_fun returning generated upper-triangular matrices (ties, duplicates, inf entries). max_dist in '
         '{inf, constructed between entries}; hooks {none, weight hook, order hook, recording merge hook}; models '
         'Hierarchical, HierarchicalTree, LinkageTree (single/complete/average); histories: fit on data A, on B, on A again '
@@ -38,7 +38,7 @@ def _matrix(draw, n, allow_inf=True):
 
 @st.composite
 def _case(draw, hist=False):
-    n = draw(st.integers(2, 8))
+    n = draw(gen.count(2, 8, 18, one_in=8))
     kind = draw(st.sampled_from(['dtw', 'dtw-c', 'synthetic', 'synthetic']))
     case = {'n': n, 'kind': kind}
     if kind.startswith('dtw'):
